@@ -6,6 +6,7 @@ import (
 	"fmt"
 	"go/ast"
 	"go/types"
+	"sort"
 	"strings"
 )
 
@@ -17,6 +18,9 @@ func rulesC06(c *Ctx) {
 		"R6.2 modifyEntry maps each ok to RIB_PROGRAMMED then (only under fibACK) FIB_PROGRAMMED with the same id, each fail to FAILED; every other AFTResult literal of package server is FAILED with the operation's own id",
 		"R6.3 addEntryInternal: every attempt ends in exactly one of {append fails, append oks, addPending}, and a terminal verdict is accompanied by rmPending",
 		"R6.4 results of held operations of any session are accumulated into the resolving caller's result lists (owner-less pendingEntry)",
+		"R6.8 the pending set is written only by addPending/rmPending, and rmPending is called only where addEntryInternal records the operation's verdict (nothing else drops a held operation)",
+		"R6.7 every OpResult the RIB builds carries the id of the operation being processed and that operation",
+		"R6.6 every response the handlers put on the session's result channel is sent on the stream exactly once (the forwarding goroutine neither filters nor duplicates)",
 		"R6.5 a held operation is answered as soon as it is resolvable: after every install every held operation is re-submitted with its own instance and operation (shared with C02 R2.4)")
 	c.NotDec = append(c.NotDec, "eventual delivery", "hand-over timing between sessions", "gRPC stream ordering")
 	ruleExactlyOneReply(c)
@@ -24,6 +28,9 @@ func rulesC06(c *Ctx) {
 	ruleOneVerdict(c)
 	ruleHeldOwner(c)
 	ruleRetryAfterInstall(c)
+	ruleStreamForwards(c, "MODIFY-FORWARDS", "Modify", "ModifyResponse")
+	ruleOpResultID(c)
+	rulePendingWriters(c)
 }
 
 // R6.1
@@ -179,7 +186,7 @@ func ruleResultMapping(c *Ctx) {
 		if !ok {
 			return true
 		}
-		id, ok := ast.Unparen(rs.X).(*ast.Ident)
+		id, ok := ast.Unparen(resolveLocal(info, me.Decl, rs.X)).(*ast.Ident)
 		if !ok {
 			return true
 		}
@@ -212,6 +219,9 @@ func ruleResultMapping(c *Ctx) {
 			}
 			if isSimpleHelperDecl(fd) {
 				continue // attributed to its call sites
+			}
+			if fo, ok := pk.TypesInfo.Defs[fd.Name].(*types.Func); ok && isNewFunc(fo) {
+				continue // a helper new to the rules: seen through its inline frames in the callers
 			}
 			for _, lr := range litsThroughHelpers(pk.TypesInfo, fd.Body, spbPath, "AFTResult") {
 				cl := lr.Lit
@@ -265,9 +275,9 @@ func insideResultLoop(info *types.Info, fd *ast.FuncDecl, cl *ast.CompositeLit, 
 		if !ok {
 			return true
 		}
-		if id, ok := ast.Unparen(rs.X).(*ast.Ident); ok {
+		if id, ok := ast.Unparen(resolveLocal(info, fd, rs.X)).(*ast.Ident); ok {
 			o := info.ObjectOf(id)
-			if (okVars[o] || failVars[o]) && rs.Body.Pos() <= cl.Pos() && cl.End() <= rs.Body.End() {
+			if (okVars[o] || failVars[o]) && containsNode(rs.Body, cl) {
 				inside = true
 			}
 		}
@@ -338,7 +348,7 @@ func checkResultLoop(c *Ctx, rule string, me *FuncInfo, rs *ast.RangeStmt, elem 
 			if cs.Expr == nil {
 				continue
 			}
-			if id, ok := ast.Unparen(cs.Expr).(*ast.Ident); ok && fibParam != nil && info.ObjectOf(id) == fibParam {
+			if id, ok := ast.Unparen(resolveLocal(info, me.Decl, cs.Expr)).(*ast.Ident); ok && fibParam != nil && info.ObjectOf(id) == fibParam {
 				if cs.Taken {
 					fib = 1
 				} else {
@@ -666,5 +676,124 @@ func ruleHeldOwner(c *Ctx) {
 	})
 	if !found {
 		c.vanished(rule, fi.Name, "retry-loop", "no retry of held operations (range over getPending re-entering addEntryInternal) found")
+	}
+}
+
+// R6.7 the RIB's verdict names the operation it is about: every OpResult the
+// RIB builds carries the id of the operation being processed and that
+// operation itself (the server copies this id into the AFTResult).
+func ruleOpResultID(c *Ctx) {
+	const rule = "OP-RESULT-ID"
+	n := 0
+	for _, fi := range c.P.AllFuncs("rib") {
+		if fi.Decl.Body == nil {
+			continue
+		}
+		info := fi.Pkg.TypesInfo
+		lits := litsOfType(info, fi.Decl.Body, ribPkg, "OpResult")
+		if len(lits) == 0 {
+			continue
+		}
+		// the operation parameter
+		opName := ""
+		for _, p := range paramObjs(info, fi.Decl) {
+			if p != nil && isNamed(p.Type(), spbPath, "AFTOperation") {
+				opName = p.Name()
+			}
+		}
+		for _, cl := range lits {
+			n++
+			c.Sites++
+			f := compositeFields(cl)
+			idT, opT := "", ""
+			if f["ID"] != nil {
+				idT = canonTerm(fi, f["ID"])
+			}
+			if f["Op"] != nil {
+				opT = canonTerm(fi, f["Op"])
+			}
+			ok := opName != "" && idT == opName+".Id" && opT == opName
+			c.check(ok, rule, fi.Name, "OpResult literal", c.P.pos(cl.Pos()), "ID = op.Id, Op = op",
+				fmt.Sprintf("the RIB's verdict is built with ID=%s Op=%s, want the id of the operation being processed (%s.Id) and the operation itself: the acknowledgement would name another operation", idT, opT, opName))
+		}
+	}
+	c.floor(rule, "OpResult literals in package rib", n, 4)
+}
+
+// R6.8 an accepted operation leaves the pending set only together with a
+// verdict: the set is written by addPending (insert) and rmPending (remove)
+// alone, and rmPending is called only where addEntryInternal records the
+// operation's verdict. Anything else that empties the set (a flush, a clean-up)
+// drops held operations without ever answering them.
+func rulePendingWriters(c *Ctx) {
+	const rule = "PENDING-WRITERS"
+	pk := c.P.pkg("rib")
+	if pk == nil {
+		return
+	}
+	info := pk.TypesInfo
+	fv := c.P.Field("rib", "RIB", "pendingEntries")
+	if fv == nil {
+		c.vanished(rule, "rib.RIB", "pendingEntries", "field not found")
+		return
+	}
+	isPend := func(e ast.Expr) bool {
+		se, ok := ast.Unparen(e).(*ast.SelectorExpr)
+		return ok && info.ObjectOf(se.Sel) == fv
+	}
+	writers := map[string][]string{}
+	for _, f := range pk.Syntax {
+		for _, d := range f.Decls {
+			fd, ok := d.(*ast.FuncDecl)
+			if !ok || fd.Body == nil {
+				continue
+			}
+			fn := displayName(info.Defs[fd.Name].(*types.Func))
+			ast.Inspect(fd.Body, func(n ast.Node) bool {
+				switch x := n.(type) {
+				case *ast.AssignStmt:
+					for _, l := range x.Lhs {
+						if ie, ok := ast.Unparen(l).(*ast.IndexExpr); ok && isPend(resolveLocal(info, fd, ie.X)) {
+							writers[fn] = append(writers[fn], "insert")
+						}
+						if isPend(l) {
+							writers[fn] = append(writers[fn], "replace-map")
+						}
+					}
+				case *ast.CallExpr:
+					if id, ok := ast.Unparen(x.Fun).(*ast.Ident); ok && (id.Name == "delete" || id.Name == "clear") && len(x.Args) >= 1 && isPend(resolveLocal(info, fd, x.Args[0])) {
+						writers[fn] = append(writers[fn], "remove")
+					}
+				}
+				return true
+			})
+		}
+	}
+	want := map[string]string{"rib.(*RIB).addPending": "insert", "rib.(*RIB).rmPending": "remove"}
+	var bad []string
+	for fn, ops := range writers {
+		for _, op := range ops {
+			if want[fn] != op {
+				bad = append(bad, fn+" ("+op+")")
+			}
+		}
+	}
+	sort.Strings(bad)
+	c.Sites += len(writers)
+	c.check(len(bad) == 0 && len(writers) >= 2, rule, "rib.RIB", "writers of the pending set", "-", "written only by addPending (insert) and rmPending (remove)",
+		"the set of held operations is modified outside addPending/rmPending: "+strings.Join(bad, ", ")+" — a held operation removed there is never answered")
+	// rmPending is called only from the verdict paths of addEntryInternal
+	if rm := c.need("rib", "RIB", "rmPending"); rm != nil {
+		cg := c.P.callGraph()
+		var others []string
+		n := 0
+		for _, cl := range cg.callersOf(rm.Obj) {
+			n++
+			if dn := displayName(cl); dn != "rib.(*RIB).addEntryInternal" {
+				others = append(others, dn)
+			}
+		}
+		c.check(len(others) == 0 && n >= 1, rule, rm.Name, "callers", c.P.pos(rm.Decl.Pos()), "called only where addEntryInternal records a verdict",
+			"held operations are removed from the pending set by "+strings.Join(others, ", ")+", which records no verdict for them")
 	}
 }
